@@ -36,7 +36,6 @@ KANI = [
     H("c03_write_term_var", "write_term(variable c) == '?' c", bound="1 ASCII byte", timeout=900),
     H("c03_write_term_lit_plain", "xsd:string literal: '\"' esc(lex) '\"' and no datatype suffix", bound="concrete literal \"x\"", timeout=900),
     H("c03_write_term_lit_datatype", "other datatype: '\"' esc(lex) '\"^^<' dt '>'", bound="concrete literal \"x\"^^<d>", timeout=900),
-    H("c03_nq_statement_line", "NqSerializer: one statement per line 's p o[ g].\\n'; the graph name is appended only for named-graph quads", bound="1-byte ASCII components, one quad", timeout=1500),
     H("c03_write_term_lit_lang", "language-tagged literal: '\"' esc(lex) '\"@' tag", bound="lexical form 1 ASCII byte (all values), tag 2 ASCII bytes", tiers=("thorough",), timeout=1800),
 ]
 
@@ -62,6 +61,22 @@ def run(rep):
         if not kfailed:
             raise
         rep.notes.append("Verus splice lost its anchors (%s); verdict comes from the bounded Kani harnesses" % e)
+    # bounded stand-in for the statement level (NqSerializer / NtSerializer + sophia's own N-Quads / N-Triples
+    # parsers): CBMC needs > 25 min for a single concrete quad through serialize_quads
+    try:
+        _extra = {"src/rewritten.rs": strip_spec_for_guard(unit.build(core.REPO))}
+    except Exception:
+        _extra = {"src/rewritten.rs": "pub fn quoted_string<W: io::Write>(_w: &mut W, _t: &[u8]) -> io::Result<()> { Ok(()) }\n"}
+    rc, out, err, secs = native.run_replay(ID, "c03", ["stmts"], extra_files=_extra)
+    if rc in (0, 1):
+        rep.obligation("native:c03_statements", "native exhaustive enumeration (rustc, real crates)", rc == 0, seconds=secs,
+                       detail="240 quads: 4 subjects x 20 objects (every literal shape incl. datatypes resembling xsd:string, tags, quoted triples) x 3 graph names through NqSerializer/NtSerializer and sophia_turtle's parsers: one statement per line, parse(serialize(q)) == q | functions: serialize_quads, serialize_triples, write_triple, write_term with long IRIs",
+                       complete=False, bound="240 single-statement datasets")
+        if rc == 1:
+            rep.violation("native:c03_statements", "bounded stand-in failed\n" + out[-1500:], witness=out.strip().splitlines()[0],
+                          replay_text="./check C03 --replay <this file>", confirmed=True)
+    else:
+        rep.undecided.append("c03_statements enumerator did not run: " + (err or out)[-300:].replace("\n", " | "))
     if kfailed:
         info = None
         try:
@@ -112,6 +127,7 @@ def run_verus_part(rep):
                           replay_text="cd /verif && ./check C03 --replay <this file>   # runs replay_src/c03 `enum` on the real sophia_turtle",
                           confirmed=confirmed)
     rep.not_covered += [
+        "NqSerializer::serialize_quads / NtSerializer::serialize_triples statement framing (a Kani harness exists in the overlay, c03_nq_statement_line, but CBMC needs > 25 min for one concrete quad; not run)",
         "injectivity of whole-term framing needs the validators' character classes (regexes; assumed)",
         "Rio parser conformance (assumed)",
     ]
